@@ -58,6 +58,13 @@ def run_prop(ctx, prop, replay=None):
                     for st in members:
                         jobs.append(dict(rkind='conv', rec_id=rid, kind=kind, name=name, space_json=space_json, st_json=st))
                         rid += 1
+                    if kind == 'state' and 'Door' in ts and (prop == 'C16' or not ctx.quick) and h >= 1 and w >= 2:
+                        # a closed door in front of the agent: opened through the dynamics after the hashes were taken
+                        g = [[steps.FLOOR if 'Floor' in ts else steps.O('Door', 0, 'NONE') for _ in range(w)] for _ in range(h)]
+                        g[0][1] = steps.O('Door', 1, 'NONE')
+                        jobs.append(dict(rkind='pairhist', rec_id=rid, kind=kind, name=name, space_json=space_json,
+                                         st1={'grid': g, 'pos': [0, 0], 'ori': 'R', 'item': proj.NONE_OBJ}))
+                        rid += 1
                     if prop == 'C16' or not ctx.quick:
                         for _ in range(4 if ctx.quick else 12):
                             a = reps.random_member(rng, kind, space_json)
@@ -106,7 +113,10 @@ def run_prop(ctx, prop, replay=None):
             what += f" member [{sst(rec['st'])}]"
         if rec['kind'] == 'pair':
             what += f" pair [{sst(rec['st1'])}] vs [{sst(rec['st2'])}]"
-        ctx.violation(what, {'kind': 'rep', 'job': by_id[b['id']], 'clauses': mine})
+        job = by_id.get(b['id']) or dict(rkind='conv', rec_id=0, kind=rec['kind_'], name=rec['name'], space_json=rec['space'], st_json=rec.get('st'))
+        if rec.get('late'):
+            what += ' [converted again after other representations had been built, against the spaces advertised at construction]'
+        ctx.violation(what, {'kind': 'rep', 'job': job, 'clauses': mine})
     with open(paths[0]) as f:
         for line in f:
             rec = json.loads(line)
